@@ -106,7 +106,7 @@ const c19StreamDocRev = `[0,false,"2",[[1],7],{"a":1},[1,[2,3]],[2,5],[1],[],tru
 var c19Sum = &Func{Name: "sum", Params: []string{"n"}, Body: Blk(&Return{X: &MatchExpr{Subj: V("n"), Cases: []MatchCase{{Pats: []Expr{N("0")}, Body: N("0")}, {Pats: []Expr{V("m")}, Body: Bin("+", CallE(V("sum"), Bin("-", V("m"), N("1"))), V("m"))}}}})}
 var c19T2 = &Func{Name: "t2", Params: []string{"i"}, Body: Blk(&Return{X: &MatchExpr{Subj: Arr_(V("i"), S("in t2")), Cases: []MatchCase{{Pats: []Expr{Arr_(V("x"), V("y"))}, Body: Arr_(V("y"), V("x"))}}}})}
 
-const c19Bodies = 6
+const c19Bodies = 7
 
 func c19Build(s c19Spec, pats []c19Pat) *progCase {
 	var subj Expr
@@ -146,6 +146,9 @@ func c19Build(s c19Spec, pats []c19Pat) *progCase {
 				leave = &Next{}
 			}
 			mc.Block = Blk(Pr(S("block"), id, V("x"), V("y")), leave, Pr(S("never")))
+		case 6:
+			// a name first created inside the body belongs to the case: afterwards it is unset again, whatever kind of pattern selected the case
+			mc.Block = Blk(Ex(Asg("=", V("fresh"), Arr_(id, V("x")))), Ex(Asg("=", Mem(V("made"), "k"), id)), Pr(S("block"), V("fresh"), V("made")))
 		}
 		m.Cases = append(m.Cases, mc)
 	}
@@ -155,6 +158,9 @@ func c19Build(s c19Spec, pats []c19Pat) *progCase {
 		Pr(S("r"), V("r"), &IsExpr{V("r"), "null"}),
 		Pr(S("after"), V("x"), V("y")),
 	)
+	if s.Body == 6 {
+		body.Body = append(body.Body, Pr(S("left behind:"), &IsExpr{V("fresh"), "unknown"}, &IsExpr{V("made"), "unknown"}))
+	}
 	if s.Body == 5 && s.Subj >= 0 {
 		// the match sits in a loop of two rounds; what follows the loop sees the outer x and y
 		body = Blk(
@@ -189,14 +195,14 @@ func c19Check(c *fw.Ctx, s c19Spec, pats []c19Pat) *fw.Violation {
 func init() {
 	fw.Register(addTok(tokFramesC19, &fw.Prop{
 		ID: "C19",
-		Rule: "12 subjects (scalars of every kind, unset, arrays of several lengths and nestings, an object) x all case lists of <= 2 cases with <= 2 alternatives each and all lists of 3 single-alternative cases over the pattern alphabet x 6 body kinds (a block left by continue / next, expression using the bound names, block with a trace, tracing call, a body that runs three further matches -- new name, array pattern, shadowing -- before using the names again, a body that calls matching / recursing functions); " +
+		Rule: "12 subjects (scalars of every kind, unset, arrays of several lengths and nestings, an object) x all case lists of <= 2 cases with <= 2 alternatives each and all lists of 3 single-alternative cases over the pattern alphabet x 7 body kinds (a block left by continue / next, a block that creates new names -- gone afterwards, expression using the bound names, block with a trace, tracing call, a body that runs three further matches -- new name, array pattern, shadowing -- before using the names again, a body that calls matching / recursing functions); " +
 			"every case list of <= 3 single-alternative cases is also run as ONE match site over the sequence of all subjects (forward and reversed); outer variables named like the pattern names exist, so leaking or clobbering a binding is visible; oracle: DESIGN.md 3.17 through the reference interpreter (selected case, bindings, value, and the trace shows that no later pattern or body ran); " +
 			"a state is (subject, first-case pattern, selected?); non-trivial = (subject, pattern) pairs that match",
 		Plan: func(t fw.Tier) int { return len(c19Patterns(t == fw.Thorough)) * len(c19Subjects) },
 		Bound: func(t fw.Tier) string {
 			return fmt.Sprintf("%d patterns, %d subjects, case lists as stated", len(c19Patterns(t == fw.Thorough)), len(c19Subjects))
 		},
-		Assumptions: []string{"reference interpreter mc/refsem; patterns with duplicate names, regex patterns and assignments to bound names are not generated (DESIGN.md 7.1)"},
+		Assumptions: []string{"reference interpreter mc/refsem; patterns with duplicate names, regex patterns and assignments to bound names are not generated (DESIGN.md 7.1); names first created in a case body are local to the case (C08: a finished match leaves nothing behind)"},
 		Run: func(c *fw.Ctx, u int) {
 			pats := c19Patterns(c.Thorough())
 			np := len(pats)
